@@ -88,8 +88,8 @@ class Hints:
 
 
 BPOOL = [b"", b"\xff\xfe\xfd", b"ab", b"\x00"]
-IPOOL = [0, -1, 64, (1 << 31) - 1, -(1 << 31)]
-LPOOL = [0, -65, 1 << 31, (1 << 63) - 1, -(1 << 63)]
+IPOOL = [0, -(1 << 31), (1 << 31) - 1, -1, 64]
+LPOOL = [0, -(1 << 63), (1 << 63) - 1, -65, 1 << 31]
 
 NOMUT = object()
 
@@ -147,7 +147,7 @@ def _build(node, names, v, cfg, depth=None, hints=None, mut=None):
     if k == "boolean":
         return v
     if k in ("int", "long") and cfg.ints == "pool":
-        for i, x in enumerate(IPOOL if k == "int" else LPOOL):
+        for i, x in enumerate((IPOOL if k == "int" else LPOOL)[:max(cfg.npool, 2)]):
             if v == i:
                 return x
         raise OutOfDomain()
@@ -262,7 +262,7 @@ def sample(node, names, cfg, rng, depth=None, big=False):
     if k == "boolean":
         return rng.random() < 0.5
     if k in ("int", "long") and cfg.ints == "pool":
-        return rng.randrange(len(IPOOL))
+        return rng.randrange(min(len(IPOOL), max(cfg.npool, 2)))
     if k == "int":
         if cfg.ints == "small":
             return rng.randint(-64, 63)
@@ -274,15 +274,15 @@ def sample(node, names, cfg, rng, depth=None, big=False):
     if k in ("float", "double"):
         if cfg.floats == "sym":
             return rng.choice([0.0, -0.0, 1.5, -2.25, 1e10, 0.1 if k == "double" else 0.5])
-        return rng.randrange(len(FPOOL))
+        return rng.randrange(min(len(FPOOL), cfg.npool))
     if k in ("bytes", "fixed") and cfg.bytes == "pool":
-        return rng.randrange(len(BPOOL) if k == "bytes" else 2)
+        return rng.randrange(min(len(BPOOL), cfg.npool) if k == "bytes" else 2)
     if k == "bytes":
         return bytes(rng.randrange(256) for _ in range(rng.randint(0, cfg.SL)))
     if k == "string":
         if cfg.strs == "sym":
             return "".join(rng.choice("aé€z") for _ in range(rng.randint(0, cfg.SL)))
-        return rng.randrange(len(POOL))
+        return rng.randrange(min(len(POOL), cfg.npool))
     if k == "fixed":
         return bytes(rng.randrange(256) for _ in range(node["size"]))
     if k == "enum":
